@@ -75,6 +75,38 @@ type DecorateOpts struct {
 func Decorate(t *rapid.T, g *Grammar, o DecorateOpts) map[string]bool {
 	feat := map[string]bool{}
 	pct := func(p int, label string) bool { return rapid.IntRange(0, 99).Draw(t, label) < p }
+	// code points that Go source treats specially or that escaping code tends to overlook
+	special := []rune{0xFEFF, 0xFFFE, 0xFFFF, 0x2028, 0x2029, 0x85, 0xA0, 0xAD, 0x200B, 0x200E, 0x202E, 0x7F, 0x80, 0x9F, 0xD7FF, 0xE000, 0xFFFD, 0x10000, 0x1F600, 0xE0001, 0x10FFFE, 0x10FFFF, '`', '$', '%', '\r', '\t', '\v', '\f', 0x1b, 0}
+	for _, r := range g.Rules {
+		r.Body.Walk(func(e *Expr) {
+			switch e.K {
+			case KLit:
+				if pct(15, "special?") {
+					x := rapid.SampledFrom(special).Draw(t, "special")
+					if pct(30, "anyrune") {
+						x = rune(rapid.Int32Range(0, 0x10FFFF).Draw(t, "anyr"))
+						if x >= 0xD800 && x <= 0xDFFF {
+							x = 0xFEFF
+						}
+					}
+					e.Runes[rapid.IntRange(0, len(e.Runes)-1).Draw(t, "spos")] = x
+					feat["special-rune-in-literal"] = true
+				}
+			case KClass:
+				if pct(10, "specialc?") {
+					x := rapid.SampledFrom(special).Draw(t, "specialc")
+					cand := append(append([]Item{}, e.Items...), Item{x, x})
+					if pct(40, "specialrange") && x < 0x10FFF0 && !(x >= 0xD700 && x <= 0xDFFF) {
+						cand[len(cand)-1] = Item{x, x + 2}
+					}
+					if ClassSafe(cand) {
+						e.Items = cand
+						feat["special-rune-in-class"] = true
+					}
+				}
+			}
+		})
+	}
 	for _, r := range g.Rules {
 		r.Body.Walk(func(e *Expr) {
 			switch e.K {
